@@ -156,8 +156,11 @@ def gen_writer(rng, n_cases):
         n = rng.randrange(1, 40) if i % 25 else rng.randrange(800, 1500)
         names = [x for x in _pop(rng, n) if x not in KEYWORDS]
         ka, kf = _cfg(rng, names)
-        yield {'kind': 'writer', 'ka': ka, 'kf': None if kf is None else lib.hx(kf), 'names': [lib.hx(x) for x in names],
-               'shape': rng.randrange(1 << 30)}
+        c = {'kind': 'writer', 'ka': ka, 'kf': None if kf is None else lib.hx(kf), 'names': [lib.hx(x) for x in names],
+             'shape': rng.randrange(1 << 30)}
+        if i % 4 == 1:
+            c['used'] = 1
+        yield c
 
 
 def gen_cli(rng, n_cases):
@@ -317,6 +320,11 @@ def run_impl(case):
         li = lua.Lua.from_lines(lines, version=8)
         ikinds, iids = _idents(li.tokens)
         if kind == 'writer':
+            if case.get('used'):
+                # the Lua object is not fresh: it has been echoed and minified under ANOTHER configuration before
+                # (keep-all-names flipped, no keep file); the observed run must not depend on that history
+                b''.join(li.to_lines())
+                b''.join(li.to_lines(writer_cls=lua.LuaMinifyTokenWriter, writer_args={'keep_all_names': not ka}))
             out = b''.join(li.to_lines(writer_cls=lua.LuaMinifyTokenWriter,
                                        writer_args={'keep_all_names': ka, 'keep_names_from_file': kpath}))
         else:
